@@ -87,8 +87,28 @@ class Sim:
         self.step_no = -1
         self.emissions: list = []  # (step, payload, structure_ok)
         self.n_subs = world.get("subscribers", 1)
-        self.sibling = self._build_sibling() if world.get("sibling") else None
-        self.tracks = worldmod.build(world)
+        self.sibling = None
+        self.sibling2 = None
+        self.construction_error = None
+        try:
+            if world.get("sibling"):
+                self.sibling = self._build_sibling()
+                self.sibling2 = self._empty_solution()
+            self.tracks = worldmod.build(world)
+        except Exception as e:  # noqa: BLE001
+            if _from_dependency(e):
+                raise RunAbort("dependency_abort", f"construction: {type(e).__name__}: {str(e)[:100]}") from e
+            # building a solution from a valid world through the public constructor and
+            # user actions must not raise; reported by the checks that have a construction
+            # clause, a silent abort for the others
+            self.construction_error = f"{type(e).__name__}: {str(e)[:200]}"
+            own = self.opts.get("own")
+            if own in ("C03", "C04", "C05", "C06", "C07", "C08", "C09", "C10"):
+                self.violate(own, f"{own}.construction", f"constructing solution objects from a valid world raised {self.construction_error}", {"op": "init"}, ["init"], type(e).__name__)
+            ab = RunAbort("construction_failed", self.construction_error)
+            ab.violations = [dict(v) for v in self.violations]
+            ab.known_hits = dict(self.known_hits)
+            raise ab from e
         self._connect()
         self.with_seg = self.tracks.segmentation is not None
         self.epochs: dict = {}
@@ -115,6 +135,13 @@ class Sim:
             self.count("cfg_empty_start")
 
     # ---------------------------------------------------------------- sibling instance
+    def _empty_solution(self):
+        from funtracks.data_model import SolutionTracks
+
+        w = self.world
+        seg = np.zeros(tuple(w["shape"]), dtype=np.dtype(w["dtype"])) if w["seg"] else None
+        return SolutionTracks(nx.DiGraph(), segmentation=seg, ndim=w["ndim"], scale=None if w["scale"] is None else list(w["scale"]))
+
     def _build_sibling(self):
         """A second SolutionTracks in the same process, started from an empty graph and
         edited through the public API before the session's own object is built."""
@@ -155,6 +182,16 @@ class Sim:
             res += oracles.lineage_partition(sib)
         if self.active("C07"):
             res += oracles.seg_correspondence(sib)
+        if self.sibling2 is not None and when == "init":
+            # a third object, created empty after the sibling was edited: it must be empty
+            s2 = self.sibling2
+            ta = s2.track_annotator
+            left = {k: v for k, v in ta.tracklet_id_to_nodes.items() if v} or {k: v for k, v in ta.lineage_id_to_nodes.items() if v}
+            if left or ta.max_tracklet_id or ta.max_lineage_id or s2.graph.number_of_nodes():
+                own = self.opts.get("own")
+                if own in ("C04", "C05", "C06"):
+                    self.violate(own, {"C04": "C04.partition", "C05": "C05.partition", "C06": "C06.lookup"}[own], f"a freshly constructed empty solution already lists {left} (max ids {ta.max_tracklet_id}, {ta.max_lineage_id}): state is shared between solution objects", {"op": when}, ["sibling"])
+                    return
         for o, m in res:
             self.violate(o.split(".")[0], o, f"second solution object in the same process ({when}): {m}", {"op": when}, ["sibling"])
             return
